@@ -162,6 +162,9 @@ fn md_menu() -> Vec<Md> {
         vec![b("x-b-bin", &[0, 255, 61, 1])],
         vec![a("x-r", "1"), a("x-r", "2"), b("x-e-bin", &[]), b("x-e-bin", &[7, 7]), a("x-r", "1")],
         vec![a("content-type", "text/plain"), a("x-a", "kept"), a("grpc-status", "0"), a("te", "x"), a("grpc-message", "forged")],
+        // reserved names with several values, in front of / between / behind ordinary entries
+        vec![a("x-a", "1"), a("te", "t1"), a("te", "t2"), b("x-b-bin", &[9]), a("user-agent", "u1"), a("user-agent", "u2"), a("user-agent", "u3")],
+        vec![a("content-type", "c1"), a("content-type", "c2"), a("x-a", "kept"), a("x-a", "too")],
     ]
 }
 
@@ -639,6 +642,104 @@ fn service_cases(tier: Tier, m: &Menus) -> Vec<Case> {
 }
 
 // ---------------------------------------------------------------------------------------------
+// section 1b: two requests in a row on the same InterceptedService (or on a clone of it): the
+// second answer owes nothing to the first
+// ---------------------------------------------------------------------------------------------
+
+#[derive(Clone, Debug)]
+struct SeqCase {
+    /// what the interceptor does with the first / second request: Some(status) = reject
+    first: Option<StatusSpec>,
+    second: Option<StatusSpec>,
+    second_on_clone: bool,
+}
+
+fn seq_statuses() -> Vec<StatusSpec> {
+    let mds = md_menu();
+    vec![
+        StatusSpec { code: 7, message: "no".into(), details: vec![], md: vec![] },
+        StatusSpec { code: 7, message: "no".into(), details: vec![1, 2, 3], md: vec![] },
+        StatusSpec { code: 7, message: "no".into(), details: vec![], md: mds[1].clone() },
+        StatusSpec { code: 7, message: "no".into(), details: vec![0xff], md: mds[3].clone() },
+        StatusSpec { code: 7, message: "no way".into(), details: vec![], md: mds[2].clone() },
+        StatusSpec { code: 16, message: "no".into(), details: vec![4], md: vec![] },
+    ]
+}
+
+fn seq_body(c: &SeqCase, ch: &Chooser) -> Outcome {
+    let seen = Arc::new(Mutex::new(Seen::default()));
+    let inner = Recorder { seen: seen.clone(), ch: ch.clone() };
+    let plan = Arc::new(Mutex::new(vec![c.second.clone(), c.first.clone()])); // popped from the back
+    let p2 = plan.clone();
+    let svc = InterceptedService::new(inner, move |mut r: Request<()>| match p2.lock().unwrap().pop().flatten() {
+        Some(st) => Err(st.build()),
+        None => {
+            r.metadata_mut().insert("x-by-interceptor", "1".parse().unwrap());
+            Ok(r)
+        }
+    });
+    let mut o = Outcome::new("");
+    o.nontrivial = true;
+    let mut obs = String::new();
+    let mut svc1 = svc.clone();
+    let mut svc2 = if c.second_on_clone { svc.clone() } else { svc1.clone() };
+    for (round, want) in [&c.first, &c.second].into_iter().enumerate() {
+        *seen.lock().unwrap() = Seen::default();
+        let mut req = http::Request::new(ScriptBody::new(vec![0u8, 0, 0, 0, 1, 9], None, Chunking::Fixed(vec![]), ch));
+        *req.method_mut() = http::Method::POST;
+        *req.version_mut() = http::Version::HTTP_2;
+        *req.uri_mut() = http::Uri::from_static("/fx.Echo/Unary");
+        req.headers_mut().insert("content-type", hv(b"application/grpc"));
+        req.headers_mut().insert("x-round", hv(round.to_string().as_bytes()));
+        let target = if round == 0 || !c.second_on_clone { &mut svc1 } else { &mut svc2 };
+        let resp = match spin_block_on(tower_service::Service::call(target, req), 1000) {
+            Ok(Ok(r)) => r,
+            Ok(Err(e)) => match e {},
+            Err(_) => {
+                o.violate("stall", format!("request #{round} was not answered"));
+                return o;
+            }
+        };
+        let (rparts, rbody) = resp.into_parts();
+        let ends_with_headers = http_body::Body::is_end_stream(&rbody);
+        let rbody = collect_body(rbody, 1000);
+        let s = seen.lock().unwrap().clone();
+        obs.push_str(&format!("#{round}: inner_calls={} resp[{} h=[{}]] ", s.calls, rparts.status, fmt_headers(&rparts.headers)));
+        let prefix = if round == 0 { "first" } else { "second" };
+        match want {
+            Some(st) => {
+                if s.calls != 0 {
+                    o.violate(format!("{prefix}-reject-inner-called"), "the interceptor rejected the request but the wrapped service was invoked");
+                }
+                judge_reject(&mut o, &format!("{prefix}-reject"), st, rparts.status, &rparts.headers, &rbody, ends_with_headers);
+            }
+            None => {
+                if s.calls != 1 || s.headers.get("x-by-interceptor").is_none() || s.headers.get("x-round").map(|v| v.as_bytes().to_vec()) != Some(round.to_string().into_bytes()) {
+                    o.violate(format!("{prefix}-accept-not-forwarded"), format!("the interceptor accepted request #{round} but the wrapped service saw calls={} headers [{}]", s.calls, fmt_headers(&s.headers)));
+                }
+            }
+        }
+    }
+    o.obs = obs;
+    o
+}
+
+fn seq_cases() -> Vec<SeqCase> {
+    let sts = seq_statuses();
+    let mut opts: Vec<Option<StatusSpec>> = sts.into_iter().map(Some).collect();
+    opts.push(None);
+    let mut out = vec![];
+    for first in &opts {
+        for second in &opts {
+            for second_on_clone in [false, true] {
+                out.push(SeqCase { first: first.clone(), second: second.clone(), second_on_clone });
+            }
+        }
+    }
+    out
+}
+
+// ---------------------------------------------------------------------------------------------
 // sections 2 and 3: the generated with_interceptor constructors
 // ---------------------------------------------------------------------------------------------
 
@@ -970,6 +1071,15 @@ pub fn property(tier: Tier) -> Property {
     .mins(tier.q(50_000, 500_000), 1_000, 10_000);
 
     let (m1, m2) = (menus.clone(), menus.clone());
+    let seq = Section::new(
+        "request-sequences",
+        Config::default(),
+        "cases: two requests in a row through one InterceptedService (the second on the same object or on a clone of it); for each request the interceptor accepts (inserting a header) or rejects with a status from a menu in which several statuses share code and message but differ in details / metadata (49 ordered pairs x 2). Oracle: each answer is judged on its own exactly as in intercepted-service — a rejection carries precisely ITS status (code, message, details, metadata), an accepted request reaches the wrapped service with the interceptor's edit. All cases count as non-trivial.",
+        seq_cases(),
+        |c: &SeqCase| format!("first={:?} second={:?} second_on_clone={}", c.first, c.second, c.second_on_clone),
+        seq_body,
+    )
+    .mins(50, 2, 50);
     let gen_server = Section::new(
         "generated-server",
         cfg(),
@@ -1001,7 +1111,7 @@ pub fn property(tier: Tier) -> Property {
             "the interceptor is a closure using the public Request<()> API (metadata_mut, extensions_mut, returning a new Request)".into(),
             "what the generated server does with a request whose content-type the interceptor removed or duplicated is not judged".into(),
         ],
-        sections: vec![service, gen_server, gen_client],
+        sections: vec![service, gen_server, gen_client, seq],
         extra: Default::default(),
     }
 }
